@@ -95,7 +95,7 @@ def preserve(item, res):
     # vacuity twin: some address inside / outside the preserved prefixes is actually moved
     tw = ipc.final_check(res, None, oa != a)
     res["finals"] -= 1
-    res["vacuity"] = "witnessed" if (tw is not None or B >= W or "0.0.0.0/0" in (cfg["prefixes"] or [])) else "VACUOUS"
+    res["vacuity"] = "witnessed" if (tw is not None or B >= W - 8 or "0.0.0.0/0" in (cfg["prefixes"] or [])) else "VACUOUS"
     if res["vacuity"] != "witnessed":
         raise core.EngineError("vacuity twin failed")
 
